@@ -102,11 +102,14 @@ def isValid (force : Bool) (e : Env P) : Bool :=
   && !(e.individuals != 0 && e.tournament != 0 && decide (e.tournament > e.individuals))
   && !(e.mateZone != 0 && e.tournament != 0 && decide (e.tournament > e.mateZone))
 
-/-- `search<T,ES>::tune_parameters`; `term0` = `prob_.sset.terminals(0)` -/
+/-- `search<T,ES>::tune_parameters`; `term0` = `prob_.sset.terminals(0)`
+    (the auto-tuned `patch_length` is kept below `code_length`: fix a44e556) -/
 def tuneBase (d : Env P) (term0 : Nat) (u : Env P) : Env P :=
   { u with
     codeLength     := if u.codeLength = 0 then d.codeLength else u.codeLength
-    patchLength    := if u.patchLength = 0 then 1 + term0 / 2 else u.patchLength
+    patchLength    := if u.patchLength = 0
+                      then min (1 + term0 / 2) ((if u.codeLength = 0 then d.codeLength else u.codeLength) - 1)
+                      else u.patchLength
     elitism        := if u.elitism = .unknown then d.elitism else u.elitism
     pMutation      := if neg u.pMutation then d.pMutation else u.pMutation
     pCross         := if neg u.pCross then d.pCross else u.pCross
@@ -131,10 +134,11 @@ def tuneSrc (lnF cubeF : Nat → Nat) (d : Env P) (term0 dsize : Nat) (u : Env P
   let ind := if u.individuals = 0 then (if ind0 < 4 then 4 else ind0) else e.individuals
   { e with layers := layers, individuals := ind }
 
-/-- `basic_ga_search<T,ES,F>::tune_parameters` -/
+/-- `basic_ga_search<T,ES,F>::tune_parameters` (the minimum of 10 is capped by the population
+    size: fix a334a4f) -/
 def tuneGa (d : Env P) (term0 : Nat) (u : Env P) : Env P :=
   let e := tuneBase d term0 u
-  { e with minIndividuals := if e.minIndividuals < 10 then 10 else e.minIndividuals }
+  { e with minIndividuals := if e.minIndividuals < 10 then min 10 e.individuals else e.minIndividuals }
 
 /-! ### the clauses of the property as propositions -/
 
@@ -174,24 +178,25 @@ theorem dflt_defined (laws : ProbLaws P) (L : Nat) (hL : L ≠ 0) : Defined (Env
   have := laws.mut_ok; have := laws.cross_ok
   simp_all [Defined, Env.dflt]
 
-theorem tuneBase_defined (d : Env P) (hd : Defined d) (term0 : Nat) (u : Env P) :
-    Defined (tuneBase d term0 u) := by
+theorem tuneBase_defined (d : Env P) (hd : Defined d) (hcode : 2 ≤ d.codeLength) (term0 : Nat)
+    (u : Env P) (hu : u.codeLength ≠ 1) : Defined (tuneBase d term0 u) := by
   obtain ⟨h1, h2, h3, h4, h5, h6, h7, h8, h9, h10, h11, h12, h13⟩ := hd
   unfold Defined tuneBase
   refine ⟨?_, ?_, ?_, ?_, ?_, ?_, ?_, ?_, ?_, ?_, ?_, ?_, ?_⟩ <;> simp only <;> split <;>
-    first | assumption | omega | (cases hm : u.maxStuck <;> simp_all)
+    first | assumption | omega | (split <;> omega) | (cases hm : u.maxStuck <;> simp_all)
 
-theorem tuneGa_defined (d : Env P) (hd : Defined d) (term0 : Nat) (u : Env P) :
-    Defined (tuneGa d term0 u) := by
-  have h := tuneBase_defined d hd term0 u
+theorem tuneGa_defined (d : Env P) (hd : Defined d) (hcode : 2 ≤ d.codeLength) (term0 : Nat)
+    (u : Env P) (hu : u.codeLength ≠ 1) : Defined (tuneGa d term0 u) := by
+  have h := tuneBase_defined d hd hcode term0 u hu
   obtain ⟨h1, h2, h3, h4, h5, h6, h7, h8, h9, h10, h11, h12, h13⟩ := h
   refine ⟨h1, h2, h3, h4, h5, h6, h7, h8, ?_, h10, h11, h12, h13⟩
   simp only [tuneGa]
   split <;> omega
 
 theorem tuneSrc_defined (lnF cubeF : Nat → Nat) (hln : ∀ n, 8 < n → lnF n ≠ 0) (d : Env P)
-    (hd : Defined d) (term0 dsize : Nat) (u : Env P) : Defined (tuneSrc lnF cubeF d term0 dsize u) := by
-  have h := tuneBase_defined d hd term0 u
+    (hd : Defined d) (hcode : 2 ≤ d.codeLength) (term0 dsize : Nat) (u : Env P) (hu : u.codeLength ≠ 1) :
+    Defined (tuneSrc lnF cubeF d term0 dsize u) := by
+  have h := tuneBase_defined d hd hcode term0 u hu
   obtain ⟨h1, h2, h3, h4, h5, h6, h7, h8, h9, h10, h11, h12, h13⟩ := h
   refine ⟨h1, h2, h3, h4, h5, h6, ?_, ?_, h9, h10, h11, h12, h13⟩
   · simp only [tuneSrc]
@@ -209,7 +214,8 @@ theorem tuneSrc_defined (lnF cubeF : Nat → Nat) (hln : ∀ n, 8 < n → lnF n 
 /-! ### the user's own settings are kept -/
 
 /-- `e` keeps every setting of `u` that was defined; `floorMin` is the strategy-imposed minimum
-    on `min_individuals` (0 = none, 10 for GA/DE); parameters outside the tuning are untouched -/
+    on `min_individuals` (0 = none, 10 for GA/DE; a smaller user value is raised to it, but never
+    above the population size); parameters outside the tuning are untouched -/
 def Keeps (floorMin : Nat) (u e : Env P) : Prop :=
   (u.codeLength ≠ 0 → e.codeLength = u.codeLength) ∧
   (u.patchLength ≠ 0 → e.patchLength = u.patchLength) ∧
@@ -219,7 +225,8 @@ def Keeps (floorMin : Nat) (u e : Env P) : Prop :=
   (u.brood ≠ 0 → e.brood = u.brood) ∧
   (u.layers ≠ 0 → e.layers = u.layers) ∧
   (u.individuals ≠ 0 → e.individuals = u.individuals) ∧
-  (u.minIndividuals ≠ 0 → e.minIndividuals = max u.minIndividuals floorMin) ∧
+  (u.minIndividuals ≠ 0 →
+    e.minIndividuals = if u.minIndividuals < floorMin then min floorMin e.individuals else u.minIndividuals) ∧
   (u.tournament ≠ 0 → e.tournament = u.tournament) ∧
   (u.mateZone ≠ 0 → e.mateZone = u.mateZone) ∧
   (u.generations ≠ 0 → e.generations = u.generations) ∧
@@ -246,8 +253,9 @@ theorem tuneGa_keeps (d : Env P) (term0 : Nat) (u : Env P) : Keeps 10 u (tuneGa 
   refine ⟨h1, h2, h3, h4, h5, h6, h7, h8, ?_, h10, h11, h12, h13, h14, h15, h16, h17, h18⟩
   intro h
   have := h9 h
-  simp only [tuneGa]
-  split <;> omega
+  simp only [tuneGa] at this ⊢
+  simp only [Nat.not_lt_zero, if_false] at this
+  rw [this]
 
 /-! ### the consistency check after tuning -/
 
@@ -271,7 +279,7 @@ theorem tuneBase_valid (laws : ProbLaws P) (L : Nat) (hL : L ≠ 0) (term0 : Nat
     (hv : isValid false u = true) (hu : Untuned u) (hc : Cross (tuneBase (Env.dflt L) term0 u)) :
     isValid true (tuneBase (Env.dflt L) term0 u) = true := by
   rw [isValid_iff] at hv ⊢
-  exact ⟨fun _ => ⟨tuneBase_defined _ (dflt_defined laws L hL) _ _, hu⟩,
+  exact ⟨fun _ => ⟨tuneBase_defined _ (dflt_defined laws L hL) (by simp [Env.dflt]) _ _ hv.2.1.1, hu⟩,
          tuneBase_single laws L term0 u hv.2.1, hc⟩
 
 theorem tuneSrc_valid (laws : ProbLaws P) (lnF cubeF : Nat → Nat) (hln : ∀ n, 8 < n → lnF n ≠ 0)
@@ -280,16 +288,20 @@ theorem tuneSrc_valid (laws : ProbLaws P) (lnF cubeF : Nat → Nat) (hln : ∀ n
     (hc : Cross (tuneSrc lnF cubeF (Env.dflt L) term0 dsize u)) :
     isValid true (tuneSrc lnF cubeF (Env.dflt L) term0 dsize u) = true := by
   rw [isValid_iff] at hv ⊢
-  exact ⟨fun _ => ⟨tuneSrc_defined lnF cubeF hln _ (dflt_defined laws L hL) _ _ _, hu⟩,
+  exact ⟨fun _ => ⟨tuneSrc_defined lnF cubeF hln _ (dflt_defined laws L hL) (by simp [Env.dflt]) _ _ _ hv.2.1.1, hu⟩,
          tuneBase_single laws L term0 u hv.2.1, hc⟩
 
 theorem tuneGa_valid (laws : ProbLaws P) (L : Nat) (hL : L ≠ 0) (term0 : Nat) (u : Env P)
-    (hv : isValid false u = true) (hu : Untuned u) (hc : Cross (tuneGa (Env.dflt L) term0 u)) :
+    (hv : isValid false u = true) (hu : Untuned u) (hpop : u.individuals ≠ 1)
+    (hc : Cross (tuneGa (Env.dflt L) term0 u)) :
     isValid true (tuneGa (Env.dflt L) term0 u) = true := by
   rw [isValid_iff] at hv ⊢
-  refine ⟨fun _ => ⟨tuneGa_defined _ (dflt_defined laws L hL) _ _, hu⟩, ?_, hc⟩
+  refine ⟨fun _ => ⟨tuneGa_defined _ (dflt_defined laws L hL) (by simp [Env.dflt]) _ _ hv.2.1.1, hu⟩, ?_, hc⟩
   obtain ⟨h1, h2, h3, h4, h5, h6, h7⟩ := tuneBase_single laws L term0 u hv.2.1
   refine ⟨h1, h2, h3, h4, h5, h6, ?_⟩
+  have hi : (tuneBase (Env.dflt L) term0 u).individuals ≠ 1 := by
+    simp only [tuneBase, Env.dflt]
+    split <;> omega
   simp only [tuneGa]
   split <;> omega
 
